@@ -63,6 +63,7 @@ class Ctx(object):
         self.t0 = time.time()
         self.local = threading.local()
         self.workload_counts = Counter()
+        self.timing = {}
 
     # ---- randomness -------------------------------------------------------------------------
     def case_rng(self, workload, idx):
@@ -138,7 +139,7 @@ class Ctx(object):
                 'cases': self.cases, 'checks': dict(self.checks), 'sigs': sorted(self.sigs),
                 'skipped': dict(self.skipped), 'lapack': dict(self.lapack), 'events': dict(self.events),
                 'reached': dict(self.reached), 'samples': self.samples, 'violations': list(self.viol.values()),
-                'workloads': dict(self.workload_counts), 'wall_s': time.time() - self.t0}
+                'workloads': dict(self.workload_counts), 'timing': self.timing, 'wall_s': time.time() - self.t0}
 
 
 # the single live context of this process (set by vt.shard)
